@@ -346,15 +346,64 @@ def igDeadPolicy : Policy :=
   whenPolicy (.binop .lt (.ite (.lit (.bool true)) (.access (.var .context) "n") (.access (.var .principal) "x")) (.lit (.long 3)))
 example : partialPolicy igEnvHat igDeadPolicy = some igDeadPolicy := by rfl
 
-/-! ## an ignore marker NESTED in the context (open finding `nested-ignore-consumed-whole`)
+/-! ## an ignore marker NESTED in the context (former finding `nested-ignore-consumed-whole`, repaired)
 
   `completeEnvI` gives values to ignored request PARTS; the theorems above leave a marker that is nested inside the context
-  where it is.  `partial_test.go` (ignoreAnd, ignoreOr, ignoreIfThen, ignoreHas) uses such nested markers, and `partial`
-  does answer `errIgnore` when evaluation reaches the marker ITSELF (`context.r.a == 1`, `context.r has a`).  A record or
-  set that merely CONTAINS the marker is an ordinary known value for every other operator: `isValueWithVariable`, which
-  keeps values containing a VARIABLE out of such operators, has no counterpart for the ignore marker.  Reading the
-  property's ignore clause for a part of a request part ("satisfied for at least one value of the ignored position ⇒ kept
-  and satisfied"), the code — and this model, which mirrors it — violates it. -/
+  where it is (they hold for every environment, also one with nested markers, but say nothing about the values a nested
+  marker stands for).  `partial_test.go` (ignoreAnd, ignoreOr, ignoreIfThen, ignoreHas) uses such nested markers, and
+  `partial` answers `errIgnore` when evaluation reaches the marker ITSELF (`context.r.a == 1`, `context.r has a`).
+  Until the repair a record or set that merely CONTAINS the marker was an ordinary known value for every other operator
+  (`context.r == {a: 1}` with `context = {r: {a: ignore}}` folded to `false` and the permit policy was DROPPED although it
+  is satisfied for `a := 1`: the former `C06_nested_ignore_not_widened_counterexample`).  Now `isValueWithIgnore` is the
+  counterpart of `isValueWithVariable` (`PR.whole`): such a value is ignored like the marker itself by every operator
+  other than `.` / `has`, and wherever it would be embedded in a residual.
+  NOT PROVED in general: a widening theorem for completions of NESTED marker positions (it needs a relational invariant
+  "equal up to the marker positions" through attribute access / `has`, the analogue of `Sound` for unknowns); the
+  theorems `C06_nested_ignore_*` below state the repaired treatment in general (a value containing the marker as the
+  operand of any strict operator gives `errIgnore`; `PartialPolicy` then widens), the former witness and its neighbours
+  are regression examples, the harness reference (`RefCfg.IgnTaint`, now part of the
+  base configuration) and the completion oracle of the C05 / C06 checks test it on the Go code. -/
+
+/-- `PR.whole` on a literal that contains the ignore marker: `errIgnore` -/
+theorem C06_nested_ignore_whole {v : Value} (hv : v.ignInside = true) : (PR.ok (.lit v)).whole = .ign := by
+  simp [PR.whole, hv]
+
+/-- GENERAL (every environment, operator other than `&&` / `||`, operands): a LEFT operand that partially evaluates to a
+    value containing the ignore marker makes the operator `errIgnore` — whatever the right operand is -/
+theorem C06_nested_ignore_left_operand (env : Env) (op : BinOp) (l r : Expr) (v : Value)
+    (h1 : op ≠ .and) (h2 : op ≠ .or) (hl : partialE env l = .ok (.lit v)) (hv : v.ignInside = true) :
+    partialE env (.binop op l r) = .ign := by
+  cases op <;> first | exact absurd rfl h1 | exact absurd rfl h2 |
+    (simp only [partialE, hl, C06_nested_ignore_whole hv]; rfl)
+
+theorem combine2_right_ign (l r : Expr) (p1 : PR) (mk : Expr → Expr → Expr) (ev : Expr → EvR)
+    (hne : ∀ e, p1 ≠ .err e) : combine2 l r p1 .ign mk ev = .ign := by
+  cases p1 with
+  | err e => exact absurd rfl (hne e)
+  | _ => rfl
+
+/-- the same for a RIGHT operand, unless the left operand already failed (operands are looked at left to right; the
+    left operand may be known, a residual or unknown) -/
+theorem C06_nested_ignore_right_operand (env : Env) (op : BinOp) (l r : Expr) (v : Value)
+    (h1 : op ≠ .and) (h2 : op ≠ .or) (hne : ∀ e, (partialE env l).whole ≠ .err e)
+    (hr : partialE env r = .ok (.lit v)) (hv : v.ignInside = true) :
+    partialE env (.binop op l r) = .ign := by
+  cases op <;> first | exact absurd rfl h1 | exact absurd rfl h2 |
+    (simp only [partialE, hr, C06_nested_ignore_whole hv]; exact combine2_right_ign _ _ _ _ _ hne)
+
+/-- unary operators -/
+theorem C06_nested_ignore_unary_operand (env : Env) (op : UnOp) (e : Expr) (v : Value)
+    (hl : partialE env e = .ok (.lit v)) (hv : v.ignInside = true) :
+    partialE env (.unop op e) = .ign := by
+  simp only [partialE, hl, C06_nested_ignore_whole hv]; rfl
+
+/-- and what `PartialPolicy` does with such a condition: removed from a permit policy (widened), a forbid policy is
+    dropped — exactly as for an ignored request part -/
+theorem C06_nested_ignore_condition_widened (env : Env) (w : Bool) (body : Expr) (rest : List (Bool × Expr))
+    (h : partialE env body = .ign) :
+    partialConds env .permit ((w, body) :: rest) = partialConds env .permit rest ∧
+    partialConds env .forbid ((w, body) :: rest) = none := by
+  simp [partialConds, condStep, h]
 
 /-- `context = {r: {a: __cedar::ignore::""}}` -/
 def niEnvHat : Env := { ceBase with context := .record [("r", .record [("a", mkIgnore)])] }
@@ -363,15 +412,31 @@ def niPolicy : Policy := whenPolicy (.binop .eq (.access (.var .context) "r") (.
 /-- the ignored position given the value `1` -/
 def niEnv : Env := { ceBase with context := .record [("r", .record [("a", .long 1)])] }
 
-/-- A permit policy that is satisfied for a value of the ignored position is DROPPED: ignoring narrows instead of
-    widening.  (Replayed on the Go code: table case `nested-ignore` of the C06 harness, known finding
-    `nested-ignore-consumed-whole`.) -/
-theorem C06_nested_ignore_not_widened_counterexample :
-    ∃ (envHat env : Env) (p : Policy), p.effect = .permit ∧ p.recKeysDistinct = true ∧
-      envHat.context = .record [("r", .record [("a", mkIgnore)])] ∧
-      env = { envHat with context := .record [("r", .record [("a", .long 1)])] } ∧
-      satisfied p env = true ∧ partialPolicy envHat p = none :=
-  ⟨niEnvHat, niEnv, niPolicy, rfl, by decide +kernel, rfl, rfl, by decide +kernel, by decide +kernel⟩
+/-- regression (former `C06_nested_ignore_not_widened_counterexample`): the permit policy that is satisfied for a value
+    of the ignored position is now KEPT, its condition is removed (widened), and the residual is satisfied for that and
+    every other value of the position.  (Replayed on the Go code: table case `nested-ignore` of the C06 harness.) -/
+example : niPolicy.effect = .permit ∧ niPolicy.recKeysDistinct = true ∧ satisfied niPolicy niEnv = true ∧
+    (partialPolicy niEnvHat niPolicy).map (fun r => (r.conditions.length, satisfied r niEnv,
+      satisfied r { niEnv with context := .record [("r", .record [("a", .long 2)])] })) = some (0, true, true) := by
+  refine ⟨rfl, by decide +kernel, by decide +kernel, by decide +kernel⟩
+
+/-- the same for a forbid policy: it is dropped (forbids are narrowed, i.e. the decision is widened) -/
+example : partialPolicy niEnvHat { niPolicy with effect := .forbid } = none := by decide +kernel
+
+/-- a set that contains the marker: `context.ls.contains(5)` with `ls = [1, ignore]` no longer folds to `false`;
+    embedded on the right of `&&` / `||` behind an unknown it is ignored as well (`scRest`) -/
+def niSetEnvHat : Env :=
+  { ceBase with context := .record [("ls", .set [.long 1, mkIgnore]), ("u", mkVariable "x")] }
+example :
+    partialE niSetEnvHat (.binop .contains (.access (.var .context) "ls") (.lit (.long 5))) matches .ign ∧
+    partialE niSetEnvHat (.binop .or (.access (.var .context) "u") (.access (.var .context) "ls")) matches .ign ∧
+    partialE niSetEnvHat (.binop .and (.lit (.bool false)) (.access (.var .context) "ls")) matches .ok (.lit (.bool false)) := by
+  refine ⟨by decide +kernel, by decide +kernel, by decide +kernel⟩
+
+/-- attribute access and `has` still look inside: the sibling of the marker is a known value -/
+example : partialE { ceBase with context := .record [("r", .record [("a", mkIgnore), ("b", .long 7)])] }
+    (.binop .eq (.access (.access (.var .context) "r") "b") (.lit (.long 7))) matches .ok (.lit (.bool true)) := by
+  decide +kernel
 
 /-- the neighbour that reaches the marker itself IS widened: `context.r.a == 1` loses its condition -/
 example : (partialPolicy niEnvHat (whenPolicy (.binop .eq (.access (.access (.var .context) "r") "a") (.lit (.long 1))))).map
